@@ -37,6 +37,8 @@ def gen_call(rng):
         return dict(kind="chain", problem=pnr_gen.gen_problem(rng), placer=rng.choice(PLACERS),
                     seed=rng.randint(0, 10 ** 6), target=rng.choice([None, None, 0, 2, 1024]),
                     radius=rng.choice([0, 1, 20]))
+    if k < 0.63:
+        return gen_table_call(rng)
     if k < 0.68:
         n = rng.randint(1, 8)
         table = []
@@ -67,6 +69,136 @@ def gen_call(rng):
     return dict(kind="machine", cores=rng.randint(1, 17))
 
 
+def gen_table_call(rng):
+    """A direct call of one of the table minimisers on a table whose entries carry sources."""
+    n = rng.randint(1, 7)
+    table = []
+    for _ in range(n):
+        mask = rng.choice([0xf, 0xf, 0xe, 0xc, 0x7])
+        link = rng.randint(0, 5)
+        route = [rng.randint(0, 5)] if rng.random() < 0.8 else [rng.randint(0, 5), rng.randint(6, 23)]
+        k = rng.random()
+        sources = [None] if k < 0.4 else [(route[0] + 3) % 6] if k < 0.7 else [link] if k < 0.9 else [link, None]
+        table.append([route, rng.randint(0, 15) & mask, mask, sources])
+    table.sort(key=lambda e: bin(0xf & ~e[2]).count("1"))
+    return dict(kind="tables", fn=rng.choice(["oc", "oc", "rdr", "minimise_table", "minimise_tables"]), table=table,
+                target=rng.choice([None, None, 0, 3]))
+
+
+def perturb(rng, call):
+    """A copy of `call` that differs from it in ONE component (a memo keyed on the other components only would
+    return the answer of the wrong call)."""
+    c = json.loads(json.dumps(call))
+    if c["kind"] == "tables":
+        what = rng.choice(["sources", "sources", "route", "key", "target", "fn", "drop"])
+        e = rng.choice(c["table"])
+        if what == "sources":
+            for e in c["table"]:
+                if rng.random() < 0.6:
+                    e[3] = rng.choice([[None], [(e[0][0] + 3) % 6], [rng.randint(0, 5)]])
+        elif what == "route":
+            e[0] = [rng.randint(0, 5)]
+        elif what == "key":
+            e[1] = rng.randint(0, 15) & e[2]
+        elif what == "target":
+            c["target"] = rng.choice([None, 0, 2, 3, 1024])
+        elif what == "fn":
+            c["fn"] = rng.choice(["oc", "rdr", "minimise_table", "minimise_tables"])
+        elif len(c["table"]) > 1:
+            c["table"].remove(e)
+        c["what"] = what
+        return c
+    p = c["problem"]
+    m = p["machine"]
+    VEC = [(1, 0), (1, 1), (0, 1), (-1, 0), (-1, -1), (0, -1)]
+    # the parts of a Machine are what a cache key most plausibly leaves out: they get most of the weight
+    what = rng.choice(["grow"] * 3 + ["shrink"] * 2 + ["dead_links"] * 3 + ["mesh"] * 2 + ["no_dead_links"] * 2
+                      + ["dead_chip"] * 2 + ["cores", "exc", "vres", "weight", "sinks", "keys", "cons", "seed", "target", "radius"])
+    pinned = [tuple(x[2]) for x in p["constraints"] if x[0] == "location"]
+    if what == "grow":
+        m["w"] += rng.randint(0, 5)
+        m["h"] += rng.randint(0 if m["w"] != call["problem"]["machine"]["w"] else 1, 5)
+    elif what == "shrink":
+        need = [max([1] + [q[i] + 1 for q in pinned] + [d[i] + 1 for d in m["dead_chips"]]
+                    + [e[0][i] + 1 for e in m["exc"]] + [d[i] + 1 for d in m["dead_links"]]) for i in (0, 1)]
+        m["w"], m["h"] = max(need[0], m["w"] // 2), max(need[1], m["h"] // 2)
+    elif what == "dead_links":
+        for _ in range(rng.randint(1, 4)):
+            d = [rng.randrange(m["w"]), rng.randrange(m["h"]), rng.randrange(6)]
+            if d not in m["dead_links"]:
+                m["dead_links"].append(d)
+    elif what == "mesh":
+        for x in range(m["w"]):
+            for y in range(m["h"]):
+                for l, (dx, dy) in enumerate(VEC):
+                    if not (0 <= x + dx < m["w"] and 0 <= y + dy < m["h"]) and [x, y, l] not in m["dead_links"]:
+                        m["dead_links"].append([x, y, l])
+    elif what == "no_dead_links":
+        ends = [[x[2][0], x[2][1]] for x in p["constraints"] if x[0] == "location"]
+        m["dead_links"] = [d for d in m["dead_links"] if d[:2] in ends]
+    elif what == "dead_chip":
+        free = [[x, y] for x in range(m["w"]) for y in range(m["h"])
+                if (x, y) not in pinned and [x, y] not in m["dead_chips"] and (x, y) != (0, 0)]
+        if free:
+            m["dead_chips"].append(rng.choice(free))
+    elif what == "cores":
+        m["cores"] = rng.choice([x for x in [2, 3, 5, 18] if x != m["cores"]])
+    elif what == "exc":
+        xy = [rng.randrange(m["w"]), rng.randrange(m["h"])]
+        m["exc"] = [e for e in m["exc"] if e[0] != xy] + [[xy, dict(cores=rng.randint(1, 18), sdram=rng.choice([1000, 5000]))]]
+    elif what == "vres":
+        v = rng.choice(p["vertices"])
+        v["cores"] = rng.choice([x for x in [0, 1, 2] if x != v["cores"]]) if not any(
+            x[0] == "endpoint" and x[1] == v["id"] for x in p["constraints"]) else v["cores"]
+        v["sdram"] = rng.choice([0, 10, 100, 200])
+    elif what == "weight" and p["nets"]:
+        n = rng.choice(p["nets"])
+        n["weight"] = rng.choice([x for x in [1.0, 2.0, 0.5, 4.0] if x != n["weight"]])
+    elif what == "sinks" and p["nets"]:
+        n = rng.choice(p["nets"])
+        ids = [v["id"] for v in p["vertices"]]
+        n["sinks"] = [rng.choice(ids) for _ in range(rng.randint(1, min(4, len(ids))))]
+    elif what == "keys" and p["keys"]:
+        sh = rng.choice([1, 2, 4])
+        p["keys"] = [[(k << sh) & 0xffffffff, (mk << sh) & 0xffffffff] for k, mk in p["keys"]]
+        if len(set(map(tuple, p["keys"]))) != len(p["keys"]) or any(mk == 0 for _, mk in p["keys"]):
+            p["keys"] = call["problem"]["keys"]
+    elif what == "cons":
+        droppable = [x for x in p["constraints"] if x[0] in ("reserve", "samechip")]
+        if droppable and rng.random() < 0.6:
+            p["constraints"].remove(rng.choice(droppable))
+        else:
+            p["constraints"].append(["reserve", "cores", 0, rng.randint(1, 2), None])
+    elif what == "seed":
+        c["seed"] = rng.randint(0, 10 ** 6)
+    elif what == "target":
+        c["target"] = rng.choice([x for x in [None, 0, 2, 1024] if x != c["target"]])
+    elif what == "radius":
+        c["radius"] = rng.choice([x for x in [0, 1, 20] if x != c["radius"]])
+    c["what"] = what
+    return c
+
+
+def gen_family(rng):
+    """A history of RELATED calls: a base call and copies of it that differ in one component each, in random
+    order, the base once more at the end."""
+    if rng.random() < 0.3:
+        base = gen_table_call(rng)
+    else:
+        prob = pnr_gen.gen_problem(rng, max_w=6, max_h=6, max_vertices=9)
+        while len(prob["vertices"]) < 4:
+            prob = pnr_gen.gen_problem(rng, max_w=6, max_h=6, max_vertices=9)
+        prob["machine"]["cores"] = rng.choice([2, 3, 3, 5])         # small chips: the placement spans several of them
+        base = dict(kind="chain", problem=prob,
+                    placer=rng.choice(PLACERS[:4] + PLACERS), seed=rng.randint(0, 10 ** 6),
+                    target=rng.choice([None, None, 0, 2]), radius=rng.choice([0, 1, 20]))
+    fam = [base] + [perturb(rng, base) for _ in range(rng.randint(2, 5))]
+    if rng.random() < 0.4:
+        fam.append(perturb(rng, fam[-1]))
+    rng.shuffle(fam)
+    return fam + [base]
+
+
 def run(chk, args):
     chk.assumptions += ["history independence is checked for the probe kinds generated here (P&R chain through all 7 "
                         "placers, ordered_covering with its default alias argument, BitField definitions, controller "
@@ -84,6 +216,8 @@ def run(chk, args):
         hists = []
         for _ in range(n_hist):
             hists.append([gen_call(chk.rng) for _ in range(chk.rng.randint(2, 7))])
+        for _ in range(2 * n_hist):
+            hists.append(gen_family(chk.rng))
     corpus = lib.os.path.join(lib.VERIF, "corpus", "C17.json")
     if lib.os.path.exists(corpus):
         hists = json.load(open(corpus)) + hists
@@ -109,7 +243,9 @@ def run(chk, args):
         for i, (call, ra) in enumerate(zip(h, a)):
             rb = outB[k]
             k += 1
-            chk.count("kind:" + call["kind"] + (":" + call["placer"] if "placer" in call else "")
+            if "what" in call:
+                chk.count("family-variant:" + call["what"])
+            chk.count("kind:" + call["kind"] + (":" + call["placer"] if "placer" in call else "") + (":" + call["fn"] if "fn" in call else "")
                       + (":" + call["second"]["placer"] if call["kind"] == "reuse" else ""))
             nontriv = i > 0 and not (isinstance(ra["result"], list) and ra["result"][:1] == ["raised"])
             chk.note_case([h[:i + 1]], nontriv)
@@ -131,7 +267,10 @@ def run(chk, args):
         chk.traces_validated += 1
     chk.sample(dict(history=[dict((k2, v) for k2, v in c.items() if k2 != "problem") for c in hists[0]],
                     results=[json.dumps(r["result"])[:200] for r in outA[0]] if isinstance(outA[0], list) else outA[0]))
-    chk.coverage["rule"] = ("random histories of 2-7 library calls (P&R chains place->allocate->route->tables->minimise "
+    chk.coverage["rule"] = ("random histories of 2-7 library calls, and twice as many FAMILY histories: a base call and 3-7 copies of it that differ in "
+                            "ONE component each (machine size up or down, dead links, dead chips, resources, exceptions, vertex "
+                            "resources, net weights, sinks, keys, constraints, seed, target, radius; for direct table-minimiser calls: "
+                            "sources, routes, keys, target, function), shuffled, the base repeated last (P&R chains place->allocate->route->tables->minimise "
                             "with each of the 7 placer configurations, ordered_covering with default aliases, BitField "
                             "definitions, controller construction and context use, Machine defaults); every call is also "
                             "run alone in a fresh interpreter and must give the same canonical result; every argument is "
